@@ -41,6 +41,10 @@ pub fn maybe_gen_extract(rng: &mut Rng, _tier: Tier, idx: u64) -> Option<Case> {
         "UPPER.DLT".into(),
         "d1/d2/d4/deep.dlt".into(),
         "..".into(),
+        // aliases: different member names that denote the same file
+        "d3/f.dlt".into(),
+        "e.dlt".into(),
+        "d1/./b.dlt".into(),
     ];
     let dir_names = ["d1/", "d1/d2/", "d9/", "../dx/"];
     let n = r.urange(1, 8);
@@ -321,11 +325,21 @@ fn run_extract_inner(
         if single_data {
             continue;
         }
-        let mut expected: BTreeMap<PathBuf, &Member> = BTreeMap::new();
+        // several member names may denote the same file (d3/f.dlt, d3/./f.dlt): the file then has to be
+        // identical to one of those members (which one depends on earlier requests into the same directory)
+        let mut expected: BTreeMap<PathBuf, Vec<&Member>> = BTreeMap::new();
         for m in members.iter().filter(|m| !m.is_dir && !m.name.ends_with('/')) {
             if (m.name == pattern.as_str() || pattern.matches(&m.name)) && stays_inside(&m.name) {
-                expected.insert(normalise(&m.name), m);
+                expected.entry(normalise(&m.name)).or_default();
             }
+        }
+        for m in members.iter().filter(|m| !m.is_dir && !m.name.ends_with('/') && stays_inside(&m.name)) {
+            if let Some(v) = expected.get_mut(&normalise(&m.name)) {
+                v.push(m);
+            }
+        }
+        if expected.values().any(|v| v.len() > 1) {
+            ctx.probe("alias_member_names");
         }
         if refused {
             // acceptable only if extraction legitimately failed; with a well-formed archive it must not
@@ -360,11 +374,11 @@ fn run_extract_inner(
             );
         }
         if let Some(t) = temp_paths.iter().find(|t| res.iter().any(|r| Path::new(r).starts_with(t))) {
-            for (rel, m) in expected.iter() {
+            for (rel, ms) in expected.iter() {
                 let p = t.join(rel);
                 match std::fs::read(&p) {
-                    Ok(b) if b == m.data => {}
-                    Ok(b) => viol!("extract-content", "{}: {} has {} bytes differing from member {:?} ({} bytes)", arg, p.display(), b.len(), m.name, m.data.len()),
+                    Ok(b) if ms.iter().any(|m| b == m.data) => {}
+                    Ok(b) => viol!("extract-content", "{}: {} has {} bytes, identical to none of the members {:?} ({:?} bytes)", arg, p.display(), b.len(), ms.iter().map(|m| &m.name).collect::<Vec<_>>(), ms.iter().map(|m| m.data.len()).collect::<Vec<_>>()),
                     Err(e) => viol!("extract-content", "{}: cannot read {}: {}", arg, p.display(), e),
                 }
             }
